@@ -182,6 +182,9 @@ def extra(ctx, avh, avm, tier, seed):
     if m:
         ctx.coverage["mixup_scenarios"] = int(m.group(1))
         ctx.coverage["mixup_panics"] = int(m.group(2))
+        ctx.oblige("mixup:check_version_compatibility does not panic after a move / copy that keeps the stored type "
+                   "(regression of C12-panic-check-compat-mixup, %s scenarios through the public API)" % m.group(1),
+                   int(m.group(2)) == 0 and int(m.group(1)) > 0, out[-600:])
         ctx.coverage["evaluations"] = ctx.coverage.get("evaluations", 0) + int(m.group(1))
     for l in out.split("\n"):
         if l.startswith("MIXUP-SCRIPT "):
@@ -336,10 +339,6 @@ def run(tier, seed):
                      "(any function from the 64 bits to a byte string), its digits are not modelled",
                      "C12_no_panic2_histories: histories over the large alphabet op2 are covered for Op1, OpSort, OpSortModel, OpSetVersion, "
                      "OpCheckCompat, OpSerializeFile, OpSerializeElem; OpDuplicate and OpLoad are PENDING as steps (correspondence + fuzzer only)",
-                     "OpSetVersion / OpCheckCompat are covered in TYPED worlds only (agent-c17's TypedU: no move / copy that keeps a stored type the "
-                     "new parent does not list) by C12_check_compat_total; outside them the call used to panic (finding C12-panic-check-compat-mixup, fixed in /repo "
-                     "d9d0053: the mask is read from the recalculated type; C12_check_compat_mixup_fixed_real is the regression on the model, the "
-                     "probe `avh panics mixup` must confirm 0 panics)",
                      "op_wfv / ver_ok: version arguments are values of AutosarVersion discriminants",
                      "SizeOk: every identifiables map has fewer than 10^39 entries (injectivity of format!(\"{counter}\") in make_unique_item_name)",
                      "check_fn (the regex validators) is total: C19",
